@@ -855,6 +855,34 @@ clientCheckPinning(ClientHttpRequest * http)
     }
 }
 
+/// Whether a Via field value (a comma-separated list) has a member whose
+/// received-by component is our unique host name. Per RFC 9110 section 7.6.3
+/// a member is "received-protocol RWS received-by [ RWS comment ]"; any hop
+/// may strip the comment, and host names are case-insensitive.
+static bool
+ViaNamesThisProxy(const String &via)
+{
+    const char *const me = uniqueHostname();
+    const auto meLen = strlen(me);
+    const char *pos = nullptr;
+    const char *item = nullptr;
+    int ilen = 0;
+    while (strListGetItem(&via, ',', &item, &ilen, &pos)) {
+        const char *p = item;
+        const char *const end = item + ilen;
+        while (p < end && !xisspace(*p)) // received-protocol
+            ++p;
+        while (p < end && xisspace(*p))
+            ++p;
+        const char *const by = p;
+        while (p < end && !xisspace(*p) && *p != '(')
+            ++p;
+        if (static_cast<size_t>(p - by) == meLen && strncasecmp(by, me, meLen) == 0)
+            return true;
+    }
+    return false;
+}
+
 static void
 clientInterpretRequestHeaders(ClientHttpRequest * http)
 {
@@ -934,15 +962,9 @@ clientInterpretRequestHeaders(ClientHttpRequest * http)
 
     if (req_hdr->has(Http::HdrType::VIA)) {
         String s = req_hdr->getList(Http::HdrType::VIA);
-        /*
-         * ThisCache cannot be a member of Via header, "1.1 ThisCache" can.
-         * Note ThisCache2 has a space prepended to the hostname so we don't
-         * accidentally match super-domains.
-         */
 
-        if (strListIsSubstr(&s, ThisCache2, ',')) {
+        if (ViaNamesThisProxy(s))
             request->flags.loopDetected = true;
-        }
 
 #if USE_FORW_VIA_DB
         fvdbCountVia(StringToSBuf(s));
